@@ -5,6 +5,7 @@
 package mcp
 
 import (
+	"bufio"
 	"bytes"
 	"context"
 	"crypto/rand"
@@ -419,9 +420,14 @@ func (c *SSEClientTransport) Connect(ctx context.Context) (Connection, error) {
 		return nil, fmt.Errorf("failed to connect: %s", http.StatusText(resp.StatusCode))
 	}
 
+	// One buffered reader serves both the scan for the endpoint event and the
+	// scan for everything after it (scanEvents adopts a *bufio.Reader as is):
+	// with a reader of its own, the first scan would swallow whatever reached
+	// the client in the same read as the endpoint event.
+	body := bufio.NewReader(resp.Body)
 	msgEndpoint, err := func() (*url.URL, error) {
 		var evt Event
-		for evt, err = range scanEvents(resp.Body) {
+		for evt, err = range scanEvents(body) {
 			break
 		}
 		if err != nil {
@@ -450,7 +456,7 @@ func (c *SSEClientTransport) Connect(ctx context.Context) (Connection, error) {
 	go func() {
 		defer s.Close() // close the transport when the GET exits
 
-		for evt, err := range scanEvents(resp.Body) {
+		for evt, err := range scanEvents(body) {
 			if err != nil {
 				return
 			}
